@@ -97,16 +97,21 @@ impl EvictionListener<u64, u64> for RecListener {
   }
 }
 
+struct ThreadSpawner;
+impl fibre_cache::TaskSpawner for ThreadSpawner {
+  fn spawn(&self, future: std::pin::Pin<Box<dyn std::future::Future<Output = ()> + Send>>) { std::thread::spawn(move || futures_executor::block_on(future)); }
+}
+
 // ------------------------------------------------------------------ configuration
 #[derive(Clone, Debug)]
 struct Cfg { policy: String, pcap: u64, cap: Option<u64>, shards: usize, ttl: Option<u64>, tti: Option<u64>, swr: Option<u64>,
-  wheel: usize, tick: u64, mc_always: bool, moi: bool, lis: bool, t0: u64, nkeys: u64 }
+  wheel: usize, tick: u64, mc_always: bool, moi: bool, lis: bool, t0: u64, nkeys: u64, async_loader: bool }
 fn opt(x: Option<u64>) -> String { x.map(|v| v.to_string()).unwrap_or_else(|| "-".into()) }
 impl Cfg {
   fn header(&self) -> String {
-    format!("policy={} pcap={} cap={} shards={} ttl={} tti={} swr={} wheel={} tick={} mc={} moi={} lis={} t0={} nkeys={}",
+    format!("policy={} pcap={} cap={} shards={} ttl={} tti={} swr={} wheel={} tick={} mc={} moi={} lis={} t0={} nkeys={} ld={}",
       self.policy, self.pcap, self.cap.map(|c| c.to_string()).unwrap_or_else(|| "inf".into()), self.shards, opt(self.ttl), opt(self.tti), opt(self.swr),
-      self.wheel, self.tick, if self.mc_always { "always" } else { "never" }, self.moi as u8, self.lis as u8, self.t0, self.nkeys)
+      self.wheel, self.tick, if self.mc_always { "always" } else { "never" }, self.moi as u8, self.lis as u8, self.t0, self.nkeys, if self.async_loader { "a" } else { "s" })
   }
   fn parse(h: &[String]) -> Cfg {
     let o = |k: &str| kv(h, k).and_then(|s| s.parse::<u64>().ok());
@@ -115,7 +120,7 @@ impl Cfg {
     Cfg { policy: kv(h, "policy").unwrap_or("null").to_string(),
       pcap: o("pcap").unwrap_or_else(|| cap.map(|c| (c + shards as u64 - 1) / shards as u64).unwrap_or(0)),
       cap, shards, ttl: o("ttl"), tti: o("tti"), swr: o("swr"), wheel: o("wheel").unwrap_or(60) as usize, tick: o("tick").unwrap_or(1000),
-      mc_always: kv(h, "mc") == Some("always"), moi: kv(h, "moi") == Some("1"), lis: kv(h, "lis") == Some("1"), t0: o("t0").unwrap_or(1_000_000), nkeys: o("nkeys").unwrap_or(12) }
+      mc_always: kv(h, "mc") == Some("always"), moi: kv(h, "moi") == Some("1"), lis: kv(h, "lis") == Some("1"), t0: o("t0").unwrap_or(1_000_000), nkeys: o("nkeys").unwrap_or(12), async_loader: kv(h, "ld") == Some("a") }
   }
 }
 
@@ -132,7 +137,13 @@ fn build(cfg: &Cfg, env: &Env, snap: Option<CacheSnapshot<u64, u64>>) -> (C, Arc
   if let Some(t) = cfg.ttl { b = b.time_to_live(ms(t)); }
   if let Some(t) = cfg.tti { b = b.time_to_idle(ms(t)); }
   let (script, loads) = (env.script.clone(), env.loads.clone());
-  b = b.loader(move |k: u64| { loads.fetch_add(1, Ordering::SeqCst); script.lock().unwrap().get(&k).copied().unwrap_or((u64::MAX - k, 1)) });
+  if cfg.async_loader {
+    // Loader::Async + a TaskSpawner that runs each spawned future to completion on its own thread
+    b = b.async_loader(move |k: u64| { let (script, loads) = (script.clone(), loads.clone());
+      async move { loads.fetch_add(1, Ordering::SeqCst); script.lock().unwrap().get(&k).copied().unwrap_or((u64::MAX - k, 1)) } }).spawner(Arc::new(ThreadSpawner));
+  } else {
+    b = b.loader(move |k: u64| { loads.fetch_add(1, Ordering::SeqCst); script.lock().unwrap().get(&k).copied().unwrap_or((u64::MAX - k, 1)) });
+  }
   if let Some(t) = cfg.swr { b = b.stale_while_revalidate(ms(t)); }
   let lis = Arc::new(Lis::default());
   if cfg.lis { b = b.eviction_listener(RecListener(lis.clone())); }
@@ -790,7 +801,7 @@ fn gen_case(seed: u64, i: usize, tier: &str, focus: &str) -> (Cfg, Vec<String>) 
   let lis = match focus { "listener" => true, "iter" | "snapshot" => rng.chance(1, 5), _ => rng.chance(1, 3) };
   let moi = !lis && rng.chance(1, 6);
   let cfg = Cfg { policy, pcap: cap.map(|c| (c + shards as u64 - 1) / shards as u64).unwrap_or(0), cap, shards, ttl, tti, swr,
-    wheel: *rng.pick(&[2usize, 3, 4, 8, 60]), tick: 1000, mc_always: rng.chance(1, 2), moi, lis, t0: 1_000_000,
+    wheel: *rng.pick(&[2usize, 3, 4, 8, 60]), tick: 1000, mc_always: rng.chance(1, 2), moi, lis, t0: 1_000_000, async_loader: rng.chance(1, 4),
     nkeys: if tti.is_some() { *rng.pick(&[3u64, 5, 8, 10]) } else { *rng.pick(&[3u64, 5, 8, 12]) } };
   let nkeys = cfg.nkeys;
   let len = if tier == "thorough" { rng.range(6, 90) } else { rng.range(5, 45) } as usize;
